@@ -505,6 +505,26 @@ theorem impQ_frag : ImpQ Q where
       simp only [Bool.and_eq_true] at hq
       exact ⟨ics, ia, rfl, inFragL_lex ics hq.2, fun c hc => inFragL_mem hq.2 hc⟩
 
+/-- The flattened item list of an import statement whose children lie in the fragment lies in it. -/
+theorem importFlattened_frag (cs : List ANode) (hq : inFragL cs = true) : ∀ x ∈ importFlattened cs, inFrag x = true := by
+  intro x hx
+  unfold importFlattened at hx
+  simp only at hx
+  obtain ⟨c, hc, hxc⟩ := List.mem_flatMap.mp hx
+  have hcm : c ∈ cs := List.mem_of_mem_drop hc
+  have hcq := inFragL_mem hq hcm
+  split at hxc
+  · rename_i hk
+    cases c with
+    | leaf k' t' a' => simp [ANode.children] at hxc
+    | inner k' ics ia =>
+      simp only [ANode.kind, beq_iff_eq] at hk; subst hk
+      rw [inFrag_inner_ne _ _ _ (by decide)] at hcq
+      simp only [Bool.and_eq_true] at hcq
+      exact inFragL_mem hcq.2 hxc
+  · have : x = c := by simpa using hxc
+    rw [this]; exact hcq
+
 theorem binQ_frag : BinQ Q where
   leaf := by
     intro k t a h hk
